@@ -23,6 +23,34 @@ CHECKS = {
   ref="DESIGN.md section 7 (C20)"),
 }
 
+ALLOC_NOTE = COMMON_NOTE + (" Assumed here: the bitset contracts (/verif/contracts/assumed/bitset.spec, written from bitset v1.22.0: New/Test/Set/Clear/NextClear over the ghost state (length, bits), "
+  "including that Set GROWS the set, so staying below the length is an obligation of the allocator invariant); byte-precise contracts of net.IP.To4/To16/Mask/Equal, net.IPMask.Size, net.CIDRMask "
+  "(net.spec, from net/ip.go, partly restricted to 16-byte operands); sync.Mutex ownership (sync.spec); bytes.Compare, errors.New, fmt.Errorf; logger.GetLogger is a TRUSTED in-repo contract (conditional defer). "
+  "Schedules are covered by the lock-invariant meta-argument of DESIGN 2.9 (paper argument, not machine-checked): every access to the bitmap is proved to happen with the allocator's mutex held and the invariant is proved at every release. "
+  "bitset.New is assumed not to run out of memory.")
+CHECKS.update({
+ "C04": dict(
+  text=("Deductive proof on the real bitmap.(*IPv4Allocator).{Allocate,Free}, NewIPv4Allocator, bitmap.(*Allocator).{Allocate,Free,toIndex,toPrefix,contains}, NewBitmapAllocator: "
+        "each Allocate postcondition pins the whole abstract view (outstanding-set' = outstanding-set + {returned block}, and the returned block was NOT outstanding before), Free removes exactly one outstanding block, "
+        "the data-structure invariant (bitmap length = number of blocks, computed without wrap-around; no bit above it) is established by the constructors and preserved by every operation, so it holds after every history by induction; "
+        "contract-level lemmas show that distinct block indices denote disjoint blocks (IPv4: distinct addresses; IPv6: /page blocks with different bases, for all 129 allocation sizes). "
+        "Lock obligations show every bitmap access happens under the allocator mutex and no exit leaves it held."),
+  note=ALLOC_NOTE, technique="contract-based deductive verification: data-structure invariant + whole-view postconditions + geometry lemmas, VCs over go/ssa discharged by SMT", ref="DESIGN.md section 7 (C04-C07)"),
+ "C05": dict(
+  text=("Deductive proof of the postconditions transcribed from the statement: a successful allocation is a block of the pool (IPv4: /32 between start and end inclusive; IPv6: 16-byte base, inside the pool, aligned to the allocation length, "
+        "mask length = max(allocation length, length of a 16-byte canonical hint mask), other hints count as none); Allocate fails iff every block is outstanding, then returns ErrNoAddrAvail and changes nothing; the constructors "
+        "size the bitmap to exactly N blocks (widened arithmetic, so the full IPv4 range is covered) and accept exactly the representable pools. No bound on pool size, history length or hint."),
+  note=ALLOC_NOTE, technique="contract-based deductive verification (postconditions + invariant), SMT bit-vector/array discharge", ref="DESIGN.md section 7 (C04-C07)"),
+ "C06": dict(
+  text=("Deductive proof that Free (both allocators) returns nil iff the (masked) prefix lies in the pool and its block is outstanding, then clears exactly that bit, and otherwise returns an error leaving the whole outstanding set unchanged - "
+        "for prefixes at any distance below or above the pool. toIndex is specified totally (absolute block distance) so that an omitted containment test shows up as a failed postcondition with a replayable model."),
+  note=ALLOC_NOTE, technique="contract-based deductive verification (postconditions over the whole abstract view), SMT discharge", ref="DESIGN.md section 7 (C04-C07)"),
+ "C07": dict(
+  text=("Deductive proof of the postcondition `hint names a free block of the pool => the allocation is exactly that block` for both allocators: IPv4 hints in 4-byte and 16-byte IPv4-mapped form; IPv6 hints anywhere inside a block, "
+        "in 16-byte form or as a 4-byte address read as its IPv4-mapped form."),
+  note=ALLOC_NOTE, technique="contract-based deductive verification (postcondition), SMT discharge", ref="DESIGN.md section 7 (C04-C07)"),
+})
+
 NOT_YET = {}
 
 def main():
